@@ -1,5 +1,6 @@
 import Driver.OpsCore
 import TakVerif.Impl.Symmetry
+import TakVerif.Impl.Evaluate
 /-! Driver ops of the search properties (C04 alpha-beta part, C05, C16). -/
 namespace Driver
 open Tak Codec Search
@@ -40,8 +41,17 @@ def parseCfg (tok : String) : Search.Cfg × String :=
                dedupSymmetry := kvNat l "dd" 0 == 1 } },
    (l.lookup "ev").getD "w")
 
+/-- `nil` / `def`: the engine's built-in evaluator (`MinimaxConfig.Evaluate == nil` resp. `MakeEvaluator(size, nil)`),
+the model of `ai/evaluate.go` with the default weights of the board size (C18) -/
+def evalDefault (p : Pos) : Int :=
+  match evaluateDefault p.c p with
+  | .ok v => v
+  | .error _ => 0
+
 def evalOf (name : String) : Pos → Int :=
-  if name == "m" then Search.evalMat else Search.evalWinner
+  if name == "m" then Search.evalMat
+  else if name == "nil" || name == "def" then evalDefault
+  else Search.evalWinner
 
 /-- hashes of the symmetric images as `pvSearch` puts them into its de-duplication cache:
 `syms, _ := symmetry.Symmetries(child); for _, ps := range syms { cache[ps.P.Hash()] }` (an error gives no images) -/
